@@ -25,9 +25,18 @@ def run_case(prop, case):
     from . import sel as _sel
 
     b0 = _sel.BUFFER_REUSE[0]
+    # the caller's environment: for one case in four (decided by the case's content) the process has lowered
+    # scikit-learn's global working_memory to 1 KiB, so that anything processed in memory-bounded slabs really is split
+    import contextlib
+
+    import sklearn
+
+    small_memory = int(common.obj_hash(case)[:2], 16) % 4 == 0
     try:
-        with warnings.catch_warnings():
+        with warnings.catch_warnings(), (sklearn.config_context(working_memory=2.0**-10) if small_memory else contextlib.nullcontext()):
             warnings.simplefilter("ignore")
+            if small_memory:
+                j.note("cases_run_with_sklearn_working_memory_of_1KiB")
             try:
                 prop.run(case, j)
             finally:
